@@ -51,6 +51,23 @@ def _lockstep(sc, workdir):
                 lockstep=r["cycles"], stats=dict(lockstep_cycles=r["cycles"], lockstep_commands=r["issued"]))
 
 
+def _b3(sc, workdir):
+    """Spec -> code: TLC-generated behaviours of MC_BankMachine become stimuli of the real BankMachine (lock-step compared)."""
+    from .. import b3, bmlock
+    behs = b3.behaviours("MC_BankMachine", sc["cfg"], workdir, num=sc["num"], depth=sc["depth"], seed=sc["seed"] + 1)
+    cyc = issued = 0
+    notes, kinds = [], set()
+    for i, b in enumerate(behs):
+        r = bmlock.run_bm(dict(seed=0, params=sc["params"], stimulus=b), workdir)
+        cyc += r["cycles"]; issued += r["issued"]
+        if r["mismatches"] and not notes:
+            notes.append("MODEL-DRIFT module=BankMachine (TLC behaviour %d) cycle=%s signal=%s" % (i, r["mismatches"][0][0], r["mismatches"][0][1]))
+        kinds.add((r["issued"] > 0, any(x["refreq"] for x in b)))
+    return dict(bad=[], evaluations=cyc, nontrivial=[["b3", sc["name"], i] for i in range(len(behs))], traces=len(behs),
+                sample=dict(behaviours=len(behs), first_inputs=behs[0][:4]), notes=notes, lockstep=cyc,
+                stats=dict(lockstep_cycles=cyc, lockstep_commands=issued, tlc_behaviours_replayed=len(behs)))
+
+
 def lockstep_scenarios(tier, seed):
     out = []
     variants = [dict(depth=2, ap=True, tRP=2, tRCD=2, tWR=2, tCCD=1, tRC=5, tRAS=3, cwl=2, nphases=2, colbits=3, align=2, nrows=2),
@@ -60,6 +77,9 @@ def lockstep_scenarios(tier, seed):
     for j, v in enumerate(variants if tier == "quick" else variants * 3):
         out.append(dict(name="lockstep-bankmachine-%d" % j, kind="lockstep", seed=seed * 19 + j,
                         ncyc=5000 if tier == "quick" else 20000, params=dict(v, pref=0.03 + 0.02 * (j % 3), pready=0.4 + 0.15 * (j % 4))))
+    # parameters of the real module that correspond to MC_BankMachine_quick.cfg
+    out.append(dict(name="b3-bankmachine", kind="b3", seed=seed, cfg="MC_BankMachine_quick.cfg", num=30 if tier == "quick" else 300, depth=80,
+                    params=dict(depth=2, ap=True, tRP=2, tRCD=2, tWR=1, tCCD=1, tRC=4, tRAS=2, cwl=1, nphases=1, colbits=2, align=2, nrows=2)))
     return out
 
 
@@ -78,6 +98,8 @@ def models(tier, seed):
 def execute(sc, workdir):
     if sc.get("kind") == "lockstep":
         return _lockstep(sc, workdir)
+    if sc.get("kind") == "b3":
+        return _b3(sc, workdir)
     r = execute_core(sc, workdir, ID, ("dev", "link"))
     r["nontrivial"] = [[sc["memtype"], sc["rate"], sc.get("nranks", 1), k] for k in r["kinds"]
                        if k in ("ACT", "PRE", "PREA", "RD", "WR", "REF", "ZQCS")]
